@@ -585,7 +585,11 @@ class Name:
                     strio.write(struct.pack("!H", 0xC000 | compDict[name]))
                     return
                 else:
-                    compDict[name] = strio.tell() + Message.headerSize
+                    # A compression pointer holds a 14 bit offset: a name
+                    # written further into the message cannot be a target.
+                    offset = strio.tell() + Message.headerSize
+                    if offset < 0x4000:
+                        compDict[name] = offset
             ind = name.find(b".")
             if ind > 0:
                 label, name = name[:ind], name[ind + 1 :]
